@@ -239,6 +239,8 @@ def units(tier):
     from props import c02_save as SV
     wrap("C02.xsolution_save.saves_what_add_solution_reads", SV.unit_xsolution_save)
     wrap("C02.xsurface_save.charge_saved_for_every_type_add_surface_reads", SV.unit_xsurface_save)
+    from props import c02_dispatch as DP
+    wrap("C02.step.element_dispatch_adds_the_same_amount_to_exactly_one_accumulator", DP.unit_dispatch)
     from props import c02_reset as RS
     wrap("C02.reset.mineral_transfer_is_conservative", RS.unit_reset_transfer)
     for fname, lo in (("add_ss_assemblage", 1), ("add_pp_assemblage", 0)):
